@@ -21,18 +21,18 @@ import (
 // Val is an abstract value of Coerce.tla: a record with tag k and the fields
 // that tag uses.
 type Val struct {
-	K  string          `json:"k"`
-	P  string          `json:"p,omitempty"`  // num: point
-	G  string          `json:"g,omitempty"`  // num, wild: Go kind
-	S  string          `json:"s"`            // str, sym, time, other, unk
-	B  bool            `json:"b"`            // bool
-	Xs []Val           `json:"xs"`           // list
-	F  map[string]Val  `json:"f"`            // obj
-	N  string          `json:"n,omitempty"`  // var
-	Lk string          `json:"lk,omitempty"` // Go list kind (C05)
-	Et string          `json:"et,omitempty"` // Go element type of typed lists (C05)
-	Gv *Val            `json:"gv,omitempty"` // raw, leak, rawof
-	V  *Val            `json:"v,omitempty"`  // may
+	K  string         `json:"k"`
+	P  string         `json:"p,omitempty"`  // num: point
+	G  string         `json:"g,omitempty"`  // num, wild: Go kind
+	S  string         `json:"s"`            // str, sym, time, other, unk
+	B  bool           `json:"b"`            // bool
+	Xs []Val          `json:"xs"`           // list
+	F  map[string]Val `json:"f"`            // obj
+	N  string         `json:"n,omitempty"`  // var
+	Lk string         `json:"lk,omitempty"` // Go list kind (C05)
+	Et string         `json:"et,omitempty"` // Go element type of typed lists (C05)
+	Gv *Val           `json:"gv,omitempty"` // raw, leak, rawof
+	V  *Val           `json:"v,omitempty"`  // may
 }
 
 // MarshalJSON writes exactly the fields the tag uses (TLC compares records structurally).
@@ -164,21 +164,21 @@ type VarDef = InField
 
 // Universe is U-coerce as exported by MCCoerce.tla (@@UNI).
 type Universe struct {
-	Enums    map[string][]string   `json:"enums"`
-	Inputs   map[string][]InField  `json:"inputs"`
-	Objects  []string              `json:"objects"`
-	InTypes  []*TRef               `json:"inTypes"`
-	OutTypes []*TRef               `json:"outTypes"`
-	Points   map[string]string     `json:"points"`
-	Holds    map[string][]string   `json:"holds"`
-	CanonF32 map[string]string     `json:"canonF32"`
-	CanonF64 map[string]string     `json:"canonF64"`
+	Enums    map[string][]string  `json:"enums"`
+	Inputs   map[string][]InField `json:"inputs"`
+	Objects  []string             `json:"objects"`
+	InTypes  []*TRef              `json:"inTypes"`
+	OutTypes []*TRef              `json:"outTypes"`
+	Points   map[string]string    `json:"points"`
+	Holds    map[string][]string  `json:"holds"`
+	CanonF32 map[string]string    `json:"canonF32"`
+	CanonF64 map[string]string    `json:"canonF64"`
 }
 
 // Case is one vector of MCCoerce.tla or one case generated on the Go side.
 type Case struct {
-	Fam   string   `json:"fam"`
-	T     *TRef    `json:"t"`
+	Fam string `json:"fam"`
+	T   *TRef  `json:"t"`
 	// C04
 	Lit   *Val     `json:"lit,omitempty"`
 	Vds   []VarDef `json:"vds,omitempty"`
@@ -186,7 +186,7 @@ type Case struct {
 	Rx    bool     `json:"rx"`
 	Omit  bool     `json:"omit"`
 	// C05
-	Gv    *Val     `json:"gv,omitempty"`
+	Gv *Val `json:"gv,omitempty"`
 	// expectations (C04: outcome record, C05: tree)
 	Exp   *Exp     `json:"exp,omitempty"`
 	ExpK  *Exp     `json:"expK,omitempty"`
